@@ -60,7 +60,9 @@ func (m *presenceMonitor) tap(ev *WireEvent) {
 	}
 }
 
-func (m *presenceMonitor) AfterStep(rc *RunCtx, i int, st *Step, res *StepResult) *Violation { return m.viol }
+func (m *presenceMonitor) AfterStep(rc *RunCtx, i int, st *Step, res *StepResult) *Violation {
+	return m.viol
+}
 
 func (m *presenceMonitor) Final(rc *RunCtx) *Violation {
 	if m.viol != nil {
